@@ -163,9 +163,48 @@ impl<K: SimKernel<D>, const D: usize> Monitor<K, D> for C11<K, D> {
                                 findings.push(("wrong-visible-facets".into(), label.clone(), format!("find_visible_facets({q:?}) = {got:x?}; exactly visible: {must:x?}; in-plane (heuristic, not judged): {may:x?}")));
                             }
                         }
+                        // an in-plane facet is never strictly visible; the library's documented
+                        // distance heuristic agrees with that as long as q is closer to the facet's
+                        // centroid than the facet's diameter - judged there (with a 20 % margin),
+                        // not beyond
+                        let coords = post.key_to_coords();
+                        let near_in_plane: Vec<(u64, usize)> = pos
+                            .coplanar
+                            .iter()
+                            .copied()
+                            .filter(|(cell, opp)| {
+                                let Some(c) = post.cells.iter().find(|c| c.key == *cell) else { return false };
+                                let pts: Vec<&[f64]> = c.verts.iter().enumerate().filter(|(j, _)| j != opp).filter_map(|(_, k)| coords.get(k).copied()).collect();
+                                if pts.len() != D {
+                                    return false;
+                                }
+                                let cen: Vec<f64> = (0..D).map(|a| pts.iter().map(|p| p[a]).sum::<f64>() / D as f64).collect();
+                                let d2: f64 = cen.iter().zip(&q).map(|(c, x)| (c - x).powi(2)).sum();
+                                let mut diam2 = 0.0f64;
+                                for i in 0..pts.len() {
+                                    for j in (i + 1)..pts.len() {
+                                        diam2 = diam2.max(pts[i].iter().zip(pts[j]).map(|(a, b)| (a - b).powi(2)).sum());
+                                    }
+                                }
+                                d2.is_finite() && diam2.is_finite() && d2 < 0.64 * diam2
+                            })
+                            .collect();
+                        if let Ok(vis) = &r_vis {
+                            let got: BTreeSet<(u64, usize)> = vis.iter().filter_map(|i| art.hull.get_facet(*i)).map(|f| (f.cell_key().data().as_ffi(), f.facet_index() as usize)).collect();
+                            if let Some(bad) = near_in_plane.iter().find(|k| got.contains(k)) {
+                                findings.push(("in-plane-facet-reported-visible".into(), label.clone(), format!("find_visible_facets({q:?}) contains facet {bad:x?}, whose hyperplane contains the point and whose centroid is closer than its diameter")));
+                            }
+                        }
                         for fi in 0..art.hull.number_of_facets().min(32) {
                             let Some(f) = art.hull.get_facet(fi) else { continue };
                             let key = (f.cell_key().data().as_ffi(), f.facet_index() as usize);
+                            if near_in_plane.contains(&key) {
+                                ctx.stats.executions += 1;
+                                if let Ok(true) = art.hull.is_facet_visible_from_point(f, &point, tri) {
+                                    findings.push(("in-plane-facet-reported-visible".into(), label.clone(), format!("is_facet_visible_from_point(facet {fi}, {q:?}) = true for a point exactly in the facet's hyperplane and closer to its centroid than its diameter")));
+                                    break;
+                                }
+                            }
                             if pos.coplanar.contains(&key) {
                                 continue;
                             }
